@@ -24,7 +24,8 @@ import warnings
 import numpy as np
 
 ITERATIVE = ["bicg", "bicgstab", "cg", "cgs", "gmres", "lgmres", "minres", "qmr", "gcrotmk", "tfqmr"]
-DIRECT = ["spsolve", "splu", "factorized", "spsolve_triangular"]
+LEASTSQ = {"lsqr": 10, "lsmr": 8}  # least-squares iterations: (x, istop, itn, norms...), istop 1/2 = converged, 7 = iteration limit
+DIRECT = ["spsolve", "splu", "spilu", "factorized", "spsolve_triangular"]
 N_ALT = 5
 
 
@@ -69,6 +70,15 @@ class SolverEnv:
         solver.__name__ = name
         return solver
 
+    def _wrap_lsq(self, name, width):
+        def solver(A, b, *args, **kw):
+            tol = max(float(kw.get("atol", 1e-6)), float(kw.get("btol", 1e-6)))
+            x, info = self._answer(name, A, b, {"rtol": tol, "atol": 0.0})
+            istop = 1 if info == 0 else 7
+            return (x, istop, 1 if info == 0 else 10 * len(x)) + (0.0,) * (width - 3)
+        solver.__name__ = name
+        return solver
+
     def _wrap_direct(self, orig):
         def direct(*a, **k):
             self.direct_calls += 1
@@ -81,13 +91,18 @@ class SolverEnv:
         import scipy.linalg  # noqa: PLC0415
         import scipy.sparse.linalg as spl  # noqa: PLC0415
 
-        mods = [importlib.import_module(m) for m in
-                ("bluebonnet.flow.reservoir", "bluebonnet.flow", "bluebonnet.flow.flowproperties")]
-        for name in ITERATIVE + DIRECT:
+        import sys  # noqa: PLC0415
+
+        for m in ("bluebonnet.flow.reservoir", "bluebonnet.flow", "bluebonnet.flow.flowproperties"):
+            importlib.import_module(m)
+        # every loaded module of the package (a solver imported by name into a helper module is rebound as well)
+        mods = [m for k, m in sorted(sys.modules.items()) if m is not None and (k == "bluebonnet" or k.startswith("bluebonnet."))]
+        for name in ITERATIVE + list(LEASTSQ) + DIRECT:
             orig = getattr(spl, name, None)
             if orig is None:
                 continue
-            new = self._wrap_iter(name) if name in ITERATIVE else self._wrap_direct(orig)
+            new = self._wrap_iter(name) if name in ITERATIVE else \
+                self._wrap_lsq(name, LEASTSQ[name]) if name in LEASTSQ else self._wrap_direct(orig)
             self._saved.append((spl, name, orig))
             setattr(spl, name, new)
             for m in mods:  # names imported with `from scipy.sparse.linalg import ...`, and module-level partials
